@@ -54,6 +54,10 @@ type readerStack struct {
 // producer wrote.
 const timestampTypeMask = 0x08
 
+// controlBatchMask is the bit of the attributes of a v2 record batch that
+// marks a control batch.
+const controlBatchMask = 0x20
+
 // messagesHeader describes a set of records. there may be many messagesHeader's in a message set.
 type messagesHeader struct {
 	firstOffset int64
@@ -525,6 +529,19 @@ func (r *messageSetReader) readHeader() (err error) {
 		r.count = int(r.header.v2.count)
 		// Subtracts the header bytes from the length
 		r.lengthRemain = int(r.header.length) - 49
+		if r.header.v2.attributes&controlBatchMask != 0 {
+			// a control batch: the commit / abort marker of a transaction,
+			// written by the coordinator. It takes up offsets of the log but
+			// holds nothing for the application: it is passed over like an
+			// empty batch, consumption resumes after it.
+			r.count = 0
+			r.batchEnd = r.header.firstOffset + int64(r.header.v2.lastOffsetDelta) + 1
+			if r.lengthRemain > 0 {
+				if err = r.discardN(r.lengthRemain); err != nil {
+					return
+				}
+			}
+		}
 		if r.count == 0 {
 			// empty batch: nothing to read, consumption resumes after it
 			r.batchEnd = r.header.firstOffset + int64(r.header.v2.lastOffsetDelta) + 1
